@@ -6,3 +6,4 @@ pub mod props;
 pub mod rechash;
 pub mod refsys;
 pub mod runner;
+pub mod sched;
